@@ -380,5 +380,285 @@ Section Phase1.
       apply in_map_iff in Ha. destruct Ha as (p & <- & Hp). cbn [fst snd] in *.
       rewrite <- Hfd. exact (slot_ref p Hp).
     Qed.
+
+    (* ---- the children *)
+    Hypothesis Wcont : forall d, In d (c_conts k) ->
+      (f_many d || (length (kids_of (f_id d) kids) <=? 1)%nat)
+      && (isset iss (f_id d) || is_nil (kids_of (f_id d) kids)) = true.
+    Hypothesis Wgroup : grouped_b k kids = true.
+    Hypothesis Wkid_wf : forall p, In p kids -> wf_tree mm S (snd p) = true.
+    Hypothesis IHkids : forall p, In p kids -> forall dcl,
+      jdec_obj mm (t_cls (snd p)) (jenc_tree mm sd S dcl (snd p)) = Some (jpre (snd p)).
+    Hypothesis Wconf : forall p d, In p kids -> find_feat (c_conts k) (fst p) = Some d ->
+      conforms mm (t_cls (snd p)) (f_type d) = true.
+
+    Definition kd (d : feat) : list (Z * tree (list path)) := filter (fun p => fst p =? f_id d) kids.
+
+    Lemma kd_in d p : In p (kd d) -> In p kids /\ fst p = f_id d.
+    Proof. unfold kd. intros H. apply filter_In in H. destruct H as [H1 H2]. apply Z.eqb_eq in H2. split; assumption. Qed.
+
+    Lemma ch_of d : In d (c_conts k) ->
+      kids_of (f_id d) (jek k kids) = map (fun p => jenc_tree mm sd S (Some (f_type d)) (snd p)) (kd d).
+    Proof.
+      intros Hd. unfold kids_of, jek. rewrite filter_map_comm, map_map. cbn [fst snd]. fold (kd d).
+      apply map_ext_in'. intros p Hp. destruct (kd_in d p Hp) as [_ E].
+      rewrite E, (feat_in_cont mm Hmm c k Ek d Hd). reflexivity.
+    Qed.
+
+    Lemma kid_back d p : In d (c_conts k) -> In p (kd d) ->
+      forall x, x = jenc_tree mm sd S (Some (f_type d)) (snd p) ->
+      jdec_kid mm (jdec_obj mm) d x = Some (f_id d, jpre (snd p)) /\ exists es', x = JObj es'.
+    Proof.
+      intros Hd Hp x Ex. destruct (kd_in d p Hp) as [Hin E].
+      destruct (enc_shape (snd p) (Wkid_wf p Hin) (Some (f_type d))) as (es' & E1 & E2).
+      pose proof (IHkids p Hin (Some (f_type d))) as IHp. rewrite <- Ex in *. rewrite E1 in *.
+      split; [|exists es'; reflexivity].
+      assert (Hf : find_feat (c_conts k) (fst p) = Some d).
+      { rewrite E. exact (find_feat_in _ d (nd_conts k Hk) Hd). }
+      unfold jdec_kid. rewrite E2, (Wconf p d Hin Hf), IHp. reflexivity.
+    Qed.
+
+    Definition entry_of (x : Z * option json) : list (Z * json) :=
+      match snd x with Some j => [(fst x, j)] | None => [] end.
+
+    Lemma cont_entry_back d : In d (c_conts k) ->
+      gather (jdec_entry mm (jdec_obj mm) k)
+             (entry_of (f_id d, jenc_cont sd d (isset iss (f_id d)) (kids_of (f_id d) (jek k kids))))
+      = Some (map (fun p => (f_id d, jpre (snd p))) (kd d)).
+    Proof.
+      intros Hd. rewrite (ch_of d Hd). pose proof (Wcont d Hd) as W.
+      apply andb_true_iff in W. destruct W as [W1 W2].
+      unfold kids_of in W1, W2. fold (kd d) in W1, W2. rewrite map_length in W1.
+      pose proof (find_feat_in _ d (nd_conts k Hk) Hd) as Hf.
+      unfold jenc_cont, entry_of. cbn [fst snd].
+      destruct (isset iss (f_id d)); cbn [negb orb] in *.
+      2:{ destruct (kd d); [reflexivity | discriminate]. }
+      destruct (f_many d) eqn:Em.
+      - cbn [gather]. unfold jdec_entry. cbn [fst snd]. rewrite Hf, Em.
+        rewrite (traverse_map _ _ (fun p => (f_id d, jpre (snd p))) (kd d)); [rewrite app_nil_r; reflexivity|].
+        apply Forall_forall. intros p Hp. exact (proj1 (kid_back d p Hd Hp _ eq_refl)).
+      - cbn [orb] in W1. apply Nat.leb_le in W1.
+        pose proof (kid_back d) as KB.
+        destruct (kd d) as [|p [|p' r]]; [| |cbn [length] in W1; lia].
+        + cbn [map]. destruct sd; [|reflexivity].
+          cbn [gather]. unfold jdec_entry. cbn [fst snd]. rewrite Hf, Em. reflexivity.
+        + cbn [map]. destruct (KB p Hd (or_introl eq_refl) _ eq_refl) as [K1 (es' & K2)].
+          rewrite K2 in *. cbn [gather]. unfold jdec_entry. cbn [fst snd]. rewrite Hf, Em, K1. reflexivity.
+    Qed.
+
+    Lemma LL_split : LL decl c k iss attrs refs kids
+      = ((K_CLASS, class_entry decl c) :: LA k iss attrs ++ LR k iss refs) ++ LC k iss kids.
+    Proof. unfold LL. cbn [app]. rewrite app_assoc. reflexivity. Qed.
+
+    Lemma head_entries_skip :
+      gather (jdec_entry mm (jdec_obj mm) k)
+             (opt_entries ((K_CLASS, class_entry decl c) :: LA k iss attrs ++ LR k iss refs)) = Some [].
+    Proof.
+      apply gather_skip. apply Forall_forall. intros q Hq. apply entries_keys_in in Hq.
+      cbn [map fst] in Hq. unfold LA, LR in Hq. rewrite map_app, !map_fst_map, Wattrs, Wrefs in Hq.
+      unfold jdec_entry. rewrite (find_feat_notin (c_conts k) (fst q)); [reflexivity|]. intros Hc.
+      destruct Hq as [E|Hq].
+      - rewrite <- E in Hc. apply in_map_iff in Hc. destruct Hc as (d & Ed & Hd).
+        pose proof (cont_nonneg k Hk d Hd) as Hn. unfold K_CLASS in Ed. lia.
+      - apply in_app_or in Hq. destruct Hq as [Ha|Hr].
+        + exact (attr_not_cont k Hk _ Ha Hc).
+        + exact (ref_not_cont k Hk _ Hr Hc).
+    Qed.
+
+    Lemma jkids_back :
+      gather (jdec_entry mm (jdec_obj mm) k) es = Some (map (fun p => (fst p, jpre (snd p))) kids).
+    Proof.
+      unfold es. rewrite LL_split, opt_entries_app.
+      assert (HC : gather (jdec_entry mm (jdec_obj mm) k) (opt_entries (LC k iss kids))
+                   = Some (flat_map (fun d => map (fun p => (f_id d, jpre (snd p))) (kd d)) (c_conts k))).
+      { unfold opt_entries, LC. rewrite flat_map_map. apply gather_flat_map.
+        apply Forall_forall. intros d Hd. exact (cont_entry_back d Hd). }
+      rewrite (gather_app _ _ _ _ _ head_entries_skip HC). cbn [app]. f_equal.
+      unfold grouped_b in Wgroup. apply str_eqb_true in Wgroup.
+      pose proof (grouped_ok (c_conts k) (nd_conts k Hk) kids Wgroup) as Hg.
+      transitivity (map (fun p => (fst p, jpre (snd p))) (flat_map (fun d => kd d) (c_conts k))).
+      - rewrite map_flat_map. apply flat_map_ext_in. intros d _. apply map_ext_in'. intros p Hp.
+        rewrite (proj2 (kd_in d p Hp)). reflexivity.
+      - f_equal. symmetry. exact Hg.
+    Qed.
+
+    Hypothesis Wabs : c_abstract k = false.
+
+    Theorem jnode_back :
+      jdec_obj mm c (jenc_tree mm sd S decl (Node c iss attrs refs kids))
+      = Some (jpre (Node c iss attrs refs kids)).
+    Proof.
+      rewrite (enc_node decl c k iss attrs refs kids Ek).
+      change (opt_entries (LL decl c k iss attrs refs kids)) with es.
+      cbn [jdec_obj]. rewrite Ek, Wabs, es_nodup_z, es_keys_ok. cbn [andb].
+      rewrite jattrs_back, jkids_back, jrefs_back.
+      cbn [jpre]. unfold class_or. rewrite Ek. reflexivity.
+    Qed.
   End Node.
+
+  (* the conjuncts of jwf_tree *)
+  Lemma jwf_tree_node c iss attrs refs kids k :
+    find_class mm c = Some k -> jwf_tree mm (Node c iss attrs refs kids) = true ->
+    forallb (fun p => forallb (canon (atag (feat_in (c_attrs k) (fst p)))) (snd p)) attrs = true
+    /\ grouped_b k kids = true
+    /\ forallb (fun p => jwf_tree mm (snd p)) kids = true.
+  Proof.
+    intros Ek H. cbn [jwf_tree] in H. rewrite Ek in H.
+    apply andb_true_iff in H. destruct H as [H H3]. apply andb_true_iff in H. destruct H as [H1 H2].
+    repeat split; assumption.
+  Qed.
+
+  (* ---- phase 1, whole trees *)
+  Theorem jphase1 : forall t, wf_tree mm S t = true -> jwf_tree mm t = true ->
+    forall decl, jdec_obj mm (t_cls t) (jenc_tree mm sd S decl t) = Some (jpre t).
+  Proof.
+    induction t as [c iss attrs refs kids IH] using tree_ind'. intros Hwf Hj decl.
+    destruct (wf_tree_node _ _ _ _ _ _ _ Hwf) as (k & Ek & Hab & Wa & Wav & Wr & Wrv & Wk & Wc).
+    destruct (jwf_tree_node _ _ _ _ _ _ Ek Hj) as (Jc & Jg & Jk).
+    rewrite forallb_forall in Wav, Wk, Wc, Jc, Jk. rewrite Forall_forall in IH.
+    assert (Hkid : forall p, In p kids -> exists d, find_feat (c_conts k) (fst p) = Some d
+                     /\ conforms mm (t_cls (snd p)) (f_type d) = true /\ wf_tree mm S (snd p) = true).
+    { intros p Hp. specialize (Wk p Hp); cbv beta zeta in Wk.
+      destruct (find_feat (c_conts k) (fst p)) as [d|]; [|discriminate Wk].
+      apply andb_true_iff in Wk. exists d. split; [reflexivity | exact Wk]. }
+    cbn [t_cls]. apply (jnode_back decl c k iss attrs refs kids Ek Wa Wr).
+    - intros a Ha. exact (Wav a Ha).
+    - intros a Ha. exact (Jc a Ha).
+    - intros d Hd. exact (Wc d Hd).
+    - exact Jg.
+    - intros p Hp. destruct (Hkid p Hp) as (d & _ & _ & Hw). exact Hw.
+    - intros p Hp dcl. destruct (Hkid p Hp) as (d & _ & _ & Hw). exact (IH p Hp Hw (Jk p Hp) dcl).
+    - intros p d Hp Hd. destruct (Hkid p Hp) as (d' & Hd' & Hc & _). rewrite Hd in Hd'. inversion Hd'; subst d'. exact Hc.
+    - exact Hab.
+  Qed.
 End Phase1.
+
+(* ================================================================ 4. phase 2: every {"$ref": fragment} resolves *)
+Section Phase2.
+  Variable mm : mmodel.
+  Variable sd : bool.
+  Variable S : list sk.
+  Hypothesis Hmm : wf_mm mm = true.
+
+  Lemma ref_target_obj d p : path_ok mm S d p = true -> ref_target mm S d (ref_obj mm S p) = Some p.
+  Proof. intros H. unfold ref_target, ref_obj. exact (proj1 (path_ok_frag mm S Hmm d p H)). Qed.
+
+  Lemma ref_targets_objs d ps : forallb (path_ok mm S d) ps = true ->
+    traverse (ref_target mm S d) (map (ref_obj mm S) ps) = Some ps.
+  Proof.
+    intros H. rewrite forallb_forall in H. rewrite <- (map_id ps) at 2. apply traverse_map.
+    apply Forall_forall. intros p Hp. exact (ref_target_obj d p (H p Hp)).
+  Qed.
+
+  (* one reference slot: the JSON value written for it resolves to its targets *)
+  Lemma jlink_ref_back d set ps :
+    (f_many d || (length ps <=? 1)%nat)
+    && forallb (path_ok mm S d) ps
+    && (negb (f_many d && f_unique d) || nodup_paths ps)
+    && (set || is_nil ps) = true ->
+    jlink_ref mm S d (jenc_ref mm sd S d set ps) = Some ps.
+  Proof.
+    intros W. repeat (apply andb_true_iff in W; let W' := fresh "W" in destruct W as [W W']).
+    unfold jenc_ref. destruct set; cbn [negb].
+    2:{ cbn [orb] in W0. destruct ps; [reflexivity | discriminate]. }
+    destruct (f_many d) eqn:Em.
+    - cbn [jlink_ref]. rewrite Em, (ref_targets_objs d ps W2).
+      destruct (f_unique d); [|reflexivity]. cbn [andb negb orb] in W1. rewrite (dedup_nodup ps W1). reflexivity.
+    - cbn [orb] in W. apply Nat.leb_le in W.
+      destruct ps as [|p [|p' r]]; [destruct sd; cbn [jlink_ref]; rewrite ?Em; reflexivity| |cbn in W; lia].
+      cbn [forallb] in W2. rewrite andb_true_r in W2.
+      pose proof (ref_target_obj d p W2) as Ht. unfold ref_obj in *. cbn [jlink_ref]. rewrite Em, Ht. reflexivity.
+  Qed.
+
+  Lemma skel_jpre t : skel (jpre mm sd S t) = skel t.
+  Proof.
+    induction t as [c iss attrs refs kids IH] using tree_ind'. cbn [jpre skel]. f_equal.
+    rewrite map_map. apply map_ext_Forall. eapply Forall_impl'; [|exact IH].
+    intros p Hp. cbn [fst snd]. rewrite Hp. reflexivity.
+  Qed.
+
+  Theorem jphase2 : forall t, wf_tree mm S t = true -> jlink_tree mm S (jpre mm sd S t) = Some (forget t).
+  Proof.
+    induction t as [c iss attrs refs kids IH] using tree_ind'. intros Hwf.
+    destruct (wf_tree_node _ _ _ _ _ _ _ Hwf) as (k & Ek & Hab & Wa & Wav & Wr & Wrv & Wk & Wc).
+    rewrite forallb_forall in Wrv, Wk. rewrite Forall_forall in IH.
+    cbn [jpre jlink_tree]. rewrite Ek. unfold class_or. rewrite Ek.
+    rewrite (traverse_map _ _ (fun p => (fst p, snd p)) refs).
+    - rewrite (traverse_map _ _ (fun p => (fst p, forget (snd p))) kids).
+      + cbn [forget]. f_equal. f_equal. rewrite <- (map_id refs) at 2. apply map_ext. intros [a b]. reflexivity.
+      + apply Forall_forall. intros p Hp. cbn [fst snd]. rewrite (IH p Hp); [reflexivity|].
+        specialize (Wk p Hp); cbv beta zeta in Wk. destruct (find_feat (c_conts k) (fst p)) as [d|]; [|discriminate Wk].
+        apply andb_true_iff in Wk. exact (proj2 Wk).
+    - apply Forall_forall. intros p Hp. cbn [fst snd].
+      assert (Hkey : In (fst p) (map f_id (c_refs k))) by (rewrite <- Wr; apply in_map; exact Hp).
+      rewrite (proj2 (feat_in_In _ _ Hkey)).
+      rewrite (jlink_ref_back _ _ _ (Wrv p Hp)). reflexivity.
+  Qed.
+End Phase2.
+
+(* ================================================================ 5. whole documents *)
+Lemma jroots_doc mm sd F : wf_mm mm = true -> wf_forest mm F = true ->
+  jroots (encode_jdoc mm sd F) = map (jenc_tree mm sd (map skel F) None) F.
+Proof.
+  intros Hmm HF. unfold encode_jdoc. destruct F as [|t [|t' r]]; [reflexivity| |reflexivity].
+  unfold wf_forest in HF. cbn [forallb] in HF. rewrite andb_true_r in HF.
+  destruct (enc_shape mm sd _ Hmm t HF None) as (es & E & _).
+  change (map (jenc_tree mm sd (map skel [t]) None) [t]) with [jenc_tree mm sd (map skel [t]) None t].
+  rewrite E. reflexivity.
+Qed.
+
+Theorem jdocument_round_trip mm sd F :
+  wf_mm mm = true -> wf_forest mm F = true -> jwf_forest mm F = true ->
+  decode_jdoc mm (encode_jdoc mm sd F) = Some (map forget F).
+Proof.
+  intros Hmm HF HJ. unfold decode_jdoc. rewrite (jroots_doc mm sd F Hmm HF).
+  unfold wf_forest in HF. unfold jwf_forest in HJ. rewrite forallb_forall in HF, HJ.
+  set (S := map skel F) in *.
+  rewrite (traverse_map _ _ (jpre mm sd S) F).
+  - rewrite map_map. rewrite (map_ext _ _ (skel_jpre mm sd S)). fold S.
+    apply traverse_map. apply Forall_forall. intros t Ht. exact (jphase2 mm sd S Hmm t (HF t Ht)).
+  - apply Forall_forall. intros t Ht. unfold jdec_root.
+    destruct (enc_shape mm sd S Hmm t (HF t Ht) None) as (es & E & Ec). rewrite E, Ec, <- E.
+    exact (jphase1 mm sd S Hmm t (HF t Ht) (HJ t Ht) None).
+Qed.
+
+(* read literally: an observation G (no `_isset`) is exactly what the document of the state in which every
+   feature was assigned loads as *)
+Theorem jdocument_round_trip_literal mm sd (G : list (tree (list path))) :
+  wf_mm mm = true -> map forget G = G ->
+  wf_forest mm (map (set_all (all_ids mm)) G) = true -> jwf_forest mm (map (set_all (all_ids mm)) G) = true ->
+  decode_jdoc mm (encode_jdoc mm sd (map (set_all (all_ids mm)) G)) = Some G.
+Proof.
+  intros Hmm HG Hwf Hj. rewrite (jdocument_round_trip mm sd _ Hmm Hwf Hj), map_map.
+  rewrite (map_ext _ _ (forget_set_all (all_ids mm))). rewrite HG. reflexivity.
+Qed.
+
+(* ================================================================ a witness *)
+(* A (names* : str, label : str = 'd', count : int = 0, uses* -> B, parts* <>- B, main <>- B) ;
+   B (note : str, flags* : bool, owner -> A) ; C extends B.   The field f_type of an attribute is the kind of
+   its data type (0 int, 2 bool, 3 str). *)
+Definition jx_names := mkFeat 0 true false 3 None.
+Definition jx_label := mkFeat 1 false true 3 (Some [100]).
+Definition jx_count := mkFeat 6 false true 0 (Some [48]).
+Definition jx_uses := mkFeat 2 true true 1 None.
+Definition jx_parts := mkFeat 3 true true 1 None.
+Definition jx_main := mkFeat 8 false true 1 None.
+Definition jx_note := mkFeat 4 false true 3 None.
+Definition jx_flags := mkFeat 7 true false 2 None.
+Definition jx_owner := mkFeat 5 false true 0 None.
+Definition jx_mm : mmodel :=
+  [ mkClass 0 false [] [jx_names; jx_label; jx_count] [jx_uses] [jx_parts; jx_main];
+    mkClass 1 false [] [jx_note; jx_flags] [jx_owner] [];
+    mkClass 2 false [1] [jx_note; jx_flags] [jx_owner] [] ].
+(* two roots (a JSON array); names = ['a b', None, 'c'] (null inside an array); count = -5 (a JSON number);
+   the second part is a C under a containment declared as B ("eClass" in the nested object); its flags are
+   [true, None, false]; uses = [the C, the B] (cross references, order kept); the C's owner is the second
+   root; its note is ''; main holds a B *)
+Definition jx_forest : list (tree (list path)) :=
+  [ Node 0 [0; 2; 3; 6; 8]
+         [(0, [Some [97; 32; 98]; None; Some [99]]); (1, [Some [100]]); (6, [Some [45; 53]])]
+         [(2, [(0%nat, [(3, 1%nat)]); (0%nat, [(3, 0%nat)])])]
+         [(3, Node 1 [] [(4, [None]); (7, [])] [(5, [])] []);
+          (3, Node 2 [4; 5; 7] [(4, [Some []]); (7, [Some str_true; None; Some str_false])] [(5, [(1%nat, [])])] []);
+          (8, Node 1 [5] [(4, [None]); (7, [])] [(5, [])] [])];
+    Node 0 [1] [(0, []); (1, [Some [120]]); (6, [Some [48]])] [(2, [])] [] ].
